@@ -193,10 +193,10 @@ def parts(tier):
                 CH("two_workers", "vflib.props.c15:scen_schedule", {"threads": 2, "pipeline_sets": [[0, 3]], "preemptions": 2}, shards=2, timeout=170, path_timeout=90),
                 CH("two_workers_converters", "vflib.props.c15:scen_schedule", {"threads": 2, "pipeline_sets": [[4, 5]], "preemptions": 2}, shards=2, timeout=170, path_timeout=90)]
     return [CH("one_worker", "vflib.props.c15:scen_schedule", {"threads": 1, "pipeline_sets": [[0], [1], [2], [3], [4], [5], [6], [7], [8]], "preemptions": 0}, shards=1, timeout=120, path_timeout=60),
-            CH("two_workers", "vflib.props.c15:scen_schedule", {"threads": 2, "pipeline_sets": [[0, 1], [1, 2], [0, 3], [3, 2], [4, 5], [6, 0], [7, 8]], "preemptions": 2}, shards=2, timeout=250, path_timeout=90),
-            CH("three_workers", "vflib.props.c15:scen_schedule", {"threads": 3, "pipeline_sets": [[0, 1, 2]], "preemptions": 2}, shards=3, timeout=250, path_timeout=90),
+            CH("two_workers", "vflib.props.c15:scen_schedule", {"threads": 2, "pipeline_sets": [[0, 1], [1, 2], [0, 3], [3, 2], [4, 5], [6, 0], [7, 8]], "preemptions": 2}, shards=2, timeout=150, path_timeout=90),
+            CH("three_workers", "vflib.props.c15:scen_schedule", {"threads": 3, "pipeline_sets": [[0, 1, 2]], "preemptions": 2}, shards=3, timeout=150, path_timeout=90),
             CH("two_workers_context_only_all_interleavings", "vflib.props.c15:scen_schedule",
-               {"threads": 2, "pipeline_sets": [[0, 1]], "preemptions": 40, "extra_points": False}, shards=2, timeout=250, path_timeout=90)]
+               {"threads": 2, "pipeline_sets": [[0, 1]], "preemptions": 40, "extra_points": False}, shards=2, timeout=150, path_timeout=90)]
 
 
 META = {
